@@ -26,6 +26,7 @@ type Program struct {
 	Fset       interface{}
 	InitSteps  int
 	intrinsics map[string]Intrinsic
+	guardAware map[string]bool // intrinsics that handle guarded values themselves
 	infos      map[*ssa.Function]*fnInfo
 	infoMu     sync.Mutex
 	pristine   map[*ssa.Global]*Obj
@@ -41,6 +42,8 @@ type Program struct {
 	RepoDir    string
 	Extra      map[string]interface{} // model tables (json field tables, ...)
 	InitProblems []string
+	sumOK        map[*ssa.Function]bool
+	sumMu        sync.Mutex
 }
 
 // packages whose initialisers are executed (concretely) at load time
@@ -104,9 +107,9 @@ func Load(dir string, overlay map[string][]byte) (*Program, error) {
 	}
 	prog, spkgs := ssautil.AllPackages(pkgs, ssa.InstantiateGenerics)
 	prog.Build()
-	p := &Program{Prog: prog, Pkg: spkgs[0], intrinsics: map[string]Intrinsic{}, infos: map[*ssa.Function]*fnInfo{},
+	p := &Program{Prog: prog, Pkg: spkgs[0], intrinsics: map[string]Intrinsic{}, guardAware: map[string]bool{}, infos: map[*ssa.Function]*fnInfo{},
 		pristine: map[*ssa.Global]*Obj{}, lits: map[string]uint64{"": 0}, litNames: []string{""}, methCache: map[string]*ssa.Function{},
-		fnCache: map[string]*ssa.Function{}, allPkgs: map[string]*ssa.Package{}, RepoDir: dir, Extra: map[string]interface{}{}}
+		fnCache: map[string]*ssa.Function{}, sumOK: map[*ssa.Function]bool{}, allPkgs: map[string]*ssa.Package{}, RepoDir: dir, Extra: map[string]interface{}{}}
 	for _, sp := range prog.AllPackages() {
 		p.allPkgs[sp.Pkg.Path()] = sp
 	}
@@ -227,6 +230,15 @@ type Exec struct {
 
 	inputs     []*T // symbolic input variables in creation order
 	inputNames map[string]int
+	dom        map[string]*byteDom
+	multiVar   map[string]bool
+	DomHits    int
+	ModelHits  int
+	model      map[string]uint64 // an assignment known to satisfy the current pc (or nil)
+	curFn      string
+	sub        *subCtx
+	sumBad     map[*ssa.Function]bool
+	NoSummaries bool
 	fixed      map[string]uint64 // explicit choices (vChoose), by uniquified name
 	fixedOrder []string
 	Known      []KnownRegion
@@ -266,7 +278,112 @@ func (e *Exec) noteMapWrite(m *Map) {
 	}
 }
 
-// feasible asks the solver whether pc ∧ c is satisfiable (unknown counts as feasible).
+var ForkStats map[string]int
+var forkMu sync.Mutex
+
+// byteDom: the set of values a symbolic byte may still take given the single-variable
+// conjuncts of the path condition (a superset of the true projection of pc).
+type byteDom [4]uint64
+
+func (d *byteDom) has(v int) bool { return d[v>>6]&(1<<uint(v&63)) != 0 }
+func (d *byteDom) clear(v int)    { d[v>>6] &^= 1 << uint(v&63) }
+
+// singleByteVar returns the only variable of c if it is a single 8-bit variable.
+func singleByteVar(c *T) *T {
+	vars := map[string]*T{}
+	c.Vars(vars)
+	if len(vars) != 1 {
+		return nil
+	}
+	for _, v := range vars {
+		if v.S.K == sym.KBV && v.S.W == 8 {
+			return v
+		}
+	}
+	return nil
+}
+
+func (e *Exec) addPC(c *T) {
+	if c.Op == "and" {
+		for _, a := range c.Args {
+			e.addPC(a)
+		}
+		return
+	}
+	e.pc = append(e.pc, c)
+	if e.model != nil {
+		if v, ok := c.Eval(e.model); !ok || v != 1 {
+			e.model = nil
+		}
+	}
+	vars := map[string]*T{}
+	c.Vars(vars)
+	if len(vars) == 1 {
+		for n, v := range vars {
+			if v.S.K == sym.KBV && v.S.W == 8 {
+				d := e.domOf(n)
+				env := map[string]uint64{}
+				for x := 0; x < 256; x++ {
+					if !d.has(x) {
+						continue
+					}
+					env[n] = uint64(x)
+					r, ok := c.Eval(env)
+					if ok && r == 0 {
+						d.clear(x)
+					}
+				}
+				return
+			}
+		}
+	}
+	for n := range vars {
+		e.multiVar[n] = true
+	}
+}
+
+func (e *Exec) domOf(n string) *byteDom {
+	d, ok := e.dom[n]
+	if !ok {
+		d = &byteDom{^uint64(0), ^uint64(0), ^uint64(0), ^uint64(0)}
+		e.dom[n] = d
+	}
+	return d
+}
+
+// domCheck decides c from the byte domain alone: 1 feasible, 0 infeasible, -1 undecided.
+func (e *Exec) domCheck(c *T) int {
+	v := singleByteVar(c)
+	if v == nil {
+		return -1
+	}
+	d := e.domOf(v.Name)
+	env := map[string]uint64{}
+	any := false
+	for x := 0; x < 256; x++ {
+		if !d.has(x) {
+			continue
+		}
+		env[v.Name] = uint64(x)
+		r, ok := c.Eval(env)
+		if !ok {
+			return -1
+		}
+		if r == 1 {
+			any = true
+			break
+		}
+	}
+	if !any {
+		return 0 // no value of the (over-approximated) domain satisfies c
+	}
+	if e.multiVar[v.Name] {
+		return -1 // other conjuncts relate this byte to others: ask the solver
+	}
+	return 1
+}
+
+// feasible asks whether pc ∧ c is satisfiable (unknown counts as feasible).
 func (e *Exec) feasible(c *T) bool {
 	if c.IsTrue() {
 		return true
@@ -274,7 +391,24 @@ func (e *Exec) feasible(c *T) bool {
 	if c.IsFalse() {
 		return false
 	}
-	r := e.Solver.Check(e.pc, c)
+	switch e.domCheck(c) {
+	case 0:
+		e.DomHits++
+		return false
+	case 1:
+		e.DomHits++
+		return true
+	}
+	if e.model != nil {
+		if v, ok := c.Eval(e.model); ok && v == 1 {
+			e.ModelHits++
+			return true
+		}
+	}
+	r, m := e.Solver.CheckModel(e.pc, c, e.inputs)
+	if r == sym.Sat && m != nil {
+		e.model = m
+	}
 	return r != sym.Unsat
 }
 
@@ -282,6 +416,44 @@ func (e *Exec) feasible(c *T) bool {
 func (e *Exec) Branch(c *T) bool {
 	if c.IsConst() {
 		return c.Val == 1
+	}
+	if sc := e.sub; sc != nil {
+		// summarisation of a pure scalar function: explore both sides syntactically
+		i := len(sc.trace)
+		var d int32
+		if i < len(sc.prefix) {
+			d = sc.prefix[i]
+		} else {
+			canT, canF := true, true
+			if v := singleByteVar(c); v != nil {
+				canT, canF = sc.split(e, v.Name, c)
+			}
+			switch {
+			case canT && canF:
+				d = 1
+				sc.alts = append(sc.alts, append(append([]int32(nil), sc.trace...), 0))
+			case canT:
+				d = 3 // forced true within the summary (not part of the condition)
+			case canF:
+				d = 2
+			default:
+				panic(subAbort{"dead path"})
+			}
+		}
+		sc.trace = append(sc.trace, d)
+		switch d {
+		case 1:
+			sc.conds = append(sc.conds, c)
+			sc.narrow(e, c, true)
+			return true
+		case 0:
+			sc.conds = append(sc.conds, sym.Not(c))
+			sc.narrow(e, c, false)
+			return false
+		case 3:
+			return true
+		}
+		return false
 	}
 	i := len(e.trace)
 	if i < len(e.prefix) {
@@ -293,10 +465,10 @@ func (e *Exec) Branch(c *T) bool {
 		case 0:
 			return false
 		case 3:
-			e.pc = append(e.pc, c)
+			e.addPC(c)
 			return true
 		case 2:
-			e.pc = append(e.pc, sym.Not(c))
+			e.addPC(sym.Not(c))
 			return false
 		}
 		panic("bad decision in prefix")
@@ -305,10 +477,15 @@ func (e *Exec) Branch(c *T) bool {
 	ff := e.feasible(sym.Not(c))
 	switch {
 	case ft && ff:
+		if ForkStats != nil {
+			forkMu.Lock()
+			ForkStats[e.curFn]++
+			forkMu.Unlock()
+		}
 		alt := append(append([]int32(nil), e.trace...), 2)
 		e.alts = append(e.alts, alt)
 		e.trace = append(e.trace, 3)
-		e.pc = append(e.pc, c)
+		e.addPC(c)
 		return true
 	case ft:
 		e.trace = append(e.trace, 1)
@@ -320,11 +497,179 @@ func (e *Exec) Branch(c *T) bool {
 	panic(pathEnd{Kind: "assume", Msg: "path condition became unsatisfiable"})
 }
 
+type subCtx struct {
+	prefix, trace []int32
+	alts          [][]int32
+	conds         []*T
+	objBase       int
+	dom           map[string]*byteDom
+}
+
+type subAbort struct{ why string }
+
+func (sc *subCtx) domOf(e *Exec, n string) *byteDom {
+	if sc.dom == nil {
+		sc.dom = map[string]*byteDom{}
+	}
+	d, ok := sc.dom[n]
+	if !ok {
+		cp := *e.domOf(n)
+		d = &cp
+		sc.dom[n] = d
+	}
+	return d
+}
+
+// split: can c be true / false for some value of the byte's current (local) domain?
+func (sc *subCtx) split(e *Exec, n string, c *T) (canT, canF bool) {
+	d := sc.domOf(e, n)
+	env := map[string]uint64{}
+	for x := 0; x < 256 && !(canT && canF); x++ {
+		if !d.has(x) {
+			continue
+		}
+		env[n] = uint64(x)
+		r, ok := c.Eval(env)
+		if !ok {
+			return true, true
+		}
+		if r == 1 {
+			canT = true
+		} else {
+			canF = true
+		}
+	}
+	return
+}
+
+func (sc *subCtx) narrow(e *Exec, c *T, val bool) {
+	v := singleByteVar(c)
+	if v == nil {
+		return
+	}
+	d := sc.domOf(e, v.Name)
+	env := map[string]uint64{}
+	for x := 0; x < 256; x++ {
+		if !d.has(x) {
+			continue
+		}
+		env[v.Name] = uint64(x)
+		r, ok := c.Eval(env)
+		if ok && (r == 1) != val {
+			d.clear(x)
+		}
+	}
+}
+
+func (e *Exec) subGuard(what string) {
+	if e.sub != nil {
+		panic(subAbort{what})
+	}
+}
+
+func scalarType(t types.Type) bool {
+	b, ok := t.Underlying().(*types.Basic)
+	return ok && b.Info()&(types.IsBoolean|types.IsInteger) != 0
+}
+
+// summarisable: pure-looking scalar function with at least one symbolic argument.
+func (e *Exec) summarisable(fn *ssa.Function, args []Value) bool {
+	if e.sub != nil || e.initMode || e.NoSummaries || fn.Blocks == nil || len(args) == 0 {
+		return false
+	}
+	if e.sumBad[fn] {
+		return false
+	}
+	sig := fn.Signature
+	if sig.Recv() != nil || sig.Results().Len() == 0 || len(fn.FreeVars) > 0 {
+		return false
+	}
+	for i := 0; i < sig.Params().Len(); i++ {
+		if !scalarType(sig.Params().At(i).Type()) {
+			return false
+		}
+	}
+	for i := 0; i < sig.Results().Len(); i++ {
+		if !scalarType(sig.Results().At(i).Type()) {
+			return false
+		}
+	}
+	if fn.Pkg != nil && fn.Pkg == e.P.Pkg && strings.HasPrefix(fn.Name(), "v") {
+		return false
+	}
+	anySym := false
+	for _, a := range args {
+		t, ok := a.(*T)
+		if !ok {
+			return false
+		}
+		if !t.IsConst() {
+			anySym = true
+		}
+	}
+	return anySym
+}
+
+// summarise executes fn on symbolic scalars along all its paths and merges the results into
+// one ite-term, so that the caller does not fork (a pure callee is replaced by its summary).
+func (e *Exec) summarise(caller *frame, fn *ssa.Function, args []Value) (res Value, ok bool) {
+	sc := &subCtx{objBase: e.objCtr}
+	e.sub = sc
+	savedDepth := e.depth
+	defer func() {
+		e.sub = nil
+		e.depth = savedDepth
+		if r := recover(); r != nil {
+			switch r.(type) {
+			case subAbort, goPanic:
+				res, ok = nil, false
+				e.sumBad[fn] = true // per path: replays of this path take the same decision
+			default:
+				panic(r)
+			}
+		}
+	}()
+	type outcome struct {
+		cond *T
+		val  Value
+	}
+	var outs []outcome
+	queue := [][]int32{nil}
+	for len(queue) > 0 {
+		sc.prefix = queue[len(queue)-1]
+		queue = queue[:len(queue)-1]
+		sc.trace, sc.alts, sc.conds, sc.dom = nil, nil, nil, nil
+		v := e.callFnBody(caller, fn, args, nil)
+		outs = append(outs, outcome{sym.And(sc.conds...), v})
+		queue = append(queue, sc.alts...)
+		if len(outs) > 96 {
+			panic(subAbort{"too many paths"})
+		}
+	}
+	merge := func(get func(o outcome) *T) *T {
+		r := get(outs[len(outs)-1])
+		for i := len(outs) - 2; i >= 0; i-- {
+			r = sym.Ite(outs[i].cond, get(outs[i]), r)
+		}
+		return r
+	}
+	if tu, isT := outs[0].val.(Tuple); isT {
+		out := make(Tuple, len(tu))
+		for k := range tu {
+			k := k
+			out[k] = merge(func(o outcome) *T { return o.val.(Tuple)[k].(*T) })
+		}
+		return out, true
+	}
+	return merge(func(o outcome) *T { return o.val.(*T) }), true
+}
+
 // Choose returns a value in [0,n), exploring all of them.
 func (e *Exec) Choose(n int, what string) int {
 	if n <= 1 {
 		return 0
 	}
+	e.subGuard("choose")
 	i := len(e.trace)
 	if i < len(e.prefix) {
 		d := e.prefix[i]
@@ -341,17 +686,19 @@ func (e *Exec) Choose(n int, what string) int {
 
 // Assume restricts the path.
 func (e *Exec) Assume(c *T) {
+	e.subGuard("assume")
 	if c.IsTrue() {
 		return
 	}
 	if c.IsFalse() || !e.feasible(c) {
 		panic(pathEnd{Kind: "assume", Msg: "assumption infeasible"})
 	}
-	e.pc = append(e.pc, c)
+	e.addPC(c)
 }
 
 // NewInput creates a named symbolic input variable.
 func (e *Exec) NewInput(name string, s sym.Sort) *T {
+	e.subGuard("input")
 	n := e.inputNames[name]
 	e.inputNames[name] = n + 1
 	full := name
@@ -518,6 +865,7 @@ func (e *Exec) fail(bad *T, msg string) (violated bool, unknown bool) {
 
 // Assert records an obligation: pc ⇒ c. A satisfiable negation is a candidate violation.
 func (e *Exec) Assert(c *T, msg string) {
+	e.subGuard("assert")
 	e.Obligations++
 	if c.IsTrue() {
 		e.Discharged++
@@ -533,7 +881,7 @@ func (e *Exec) Assert(c *T, msg string) {
 	if violated {
 		// continue under the assumption that the assertion held (find independent failures)
 		if e.feasible(c) {
-			e.pc = append(e.pc, c)
+			e.addPC(c)
 		} else {
 			panic(pathEnd{Kind: "done", Msg: "assertion fails on the whole path"})
 		}
@@ -570,7 +918,7 @@ type Opts struct {
 func RunPath(p *Program, solver *sym.Solver, fn *ssa.Function, prefix []int32, o Opts) (res *PathResult) {
 	e := &Exec{P: p, Solver: solver, prefix: prefix, globals: map[*ssa.Global]*Obj{}, cloneMemo: map[*Obj]*Obj{}, cloneMapMemo: map[*Map]*Map{},
 		MaxSteps: o.MaxSteps, MaxDepth: o.MaxDepth, MaxLoop: o.MaxLoop, MapOrderSymbolic: o.MapOrderSymbolic, inputNames: map[string]int{},
-		funcsSeen: map[string]bool{}, harness: fn.Name(), fixed: map[string]uint64{}, Known: o.Known, writeLog: map[*Obj]bool{}, mapWrites: map[*Map]bool{}, Params: o.Params, Ext: map[string]interface{}{}}
+		funcsSeen: map[string]bool{}, harness: fn.Name(), fixed: map[string]uint64{}, Known: o.Known, dom: map[string]*byteDom{}, multiVar: map[string]bool{}, sumBad: map[*ssa.Function]bool{}, writeLog: map[*Obj]bool{}, mapWrites: map[*Map]bool{}, Params: o.Params, Ext: map[string]interface{}{}}
 	res = &PathResult{Prefix: prefix}
 	defer func() {
 		r := recover()
@@ -607,8 +955,16 @@ func RunPath(p *Program, solver *sym.Solver, fn *ssa.Function, prefix []int32, o
 			if unknown {
 				res.Undischarged = append(res.Undischarged, "panic path with undecided feasibility: "+res.PanicMsg)
 			}
+		case engineBug:
+			res.End = "unsupported"
+			st := x.Stack
+			if len(st) > 4 {
+				st = st[:4]
+			}
+			res.Msg = "ENGINE BUG: " + x.Err + " in " + strings.Join(st, " <- ")
 		default:
-			panic(r)
+			res.End = "unsupported"
+			res.Msg = fmt.Sprintf("ENGINE BUG (top): %v", r)
 		}
 	}()
 	e.callFn(nil, fn, nil, nil)
